@@ -24,8 +24,11 @@ MC_P8 = {"module": "MC_Moments", "cfg": "MC_Moments_p8.cfg"}
 MC_P10 = {"module": "MC_Moments", "cfg": "MC_Moments_p10.cfg"}
 
 
-def gen_seq(types, emb, maxlen=("5", "7")):
-    return {"module": "Gen_Moments", "cfg": "Gen_Moments_seq.cfg", "overrides": {"MaxLen": maxlen},
+def gen_seq(types, emb, maxlen=("5", "7"), alphabet=None):
+    ov = {"MaxLen": maxlen}
+    if alphabet:
+        ov["Alphabet"] = alphabet
+    return {"module": "Gen_Moments", "cfg": "Gen_Moments_seq.cfg", "overrides": ov,
             "family": "moments", "types": types, "embeddings": emb}
 
 
@@ -185,7 +188,7 @@ PROPS = {
         "technique": 'TLC model checking of the Pebay recurrences + replay on define_moments! types of five orders',
         "title": "define_moments! estimators of any order equal the exact central moments",
         "mc": [MC_SEQ, MC_P6, MC_P8, MC_P10],
-        "replay": [gen_seq(GENERIC, E05), gen_p10(GENERIC, "E0,E1,E3,E5")],
+        "replay": [gen_seq(GENERIC, E05), gen_p10(GENERIC, "E0,E1,E3,E5"), gen_seq(GENERIC, "E0,E1", maxlen=("7", "8"), alphabet="GenAlphabetZeroSkew")],
         "direct": [long_job("Moments4,M6,M10", "E0,E1,E3,E5")],
         "rule": "as C01 for define_moments! types of order 4 (crate's Moments4 and a harness instantiation), 5, 6, 8, 10; "
                 "orders above the specification run's P use the harness's exact i128 evaluation of the definition, "
@@ -235,7 +238,7 @@ PROPS = {
         "technique": 'TLC range invariants + replay under extreme exact embeddings',
         "title": "variances are never negative and means stay within the data range",
         "mc": [MC_HM, MC_W, MC_C, MC_SEQ, MC_MERGE],
-        "replay": [gen_h("hist", 2, depth=("3", "4")), gen_h("hist", 3), gen_pair("Weighted", "tree", "E0:W0,E6:W1,E7:W2,E8:W0,E9:W1,EM1:W0", maxlen=("3", "4")), gen_pair("Weighted", "seq", "EM1:W0,EM1:W2", maxlen=("4", "5")), gen_pair("Covariance", "tree", "E6:E7,E8:E9,E9:E6,EM1:EM1", maxlen=("3", "4")), gen_seq(ALLM, E09 + ",EM1"), gen_tree(ALLM, "E0,E4,E6,E7,E8,E9,EM1"), gen_hist(ALLM, "E6,E7,E8,E9,EM1")],
+        "replay": [GEN_INGEST, gen_h("hist", 2, depth=("3", "4")), gen_h("hist", 3), gen_pair("Weighted", "tree", "E0:W0,E6:W1,E7:W2,E8:W0,E9:W1,EM1:W0", maxlen=("3", "4")), gen_pair("Weighted", "seq", "EM1:W0,EM1:W2", maxlen=("4", "5")), gen_pair("Covariance", "tree", "E6:E7,E8:E9,E9:E6,EM1:EM1", maxlen=("3", "4")), gen_seq(ALLM, E09 + ",EM1"), gen_tree(ALLM, "E0,E4,E6,E7,E8,E9,EM1"), gen_hist(ALLM, "E6,E7,E8,E9,EM1")],
         "direct": [long_job("Mean,Variance,Skewness,Kurtosis,Moments4,M6,M10", "E0,E4,E6,E7,E8,E9,E10")],
         "apalache": [{"module": "Ind_Variance", "skip": (True, False)}],
         "trace": [tr_h(3)],
@@ -249,12 +252,12 @@ PROPS = {
         "technique": 'stuttering Checkpoint action + two-run bitwise replay + serde twin in validated traces',
         "title": "a serde round trip at any point is invisible",
         "mc": [MC_MERGE],
-        "replay": [gen_h("hist", 2, depth=("3", "4")), gen_h("hist", 1), gen_q("big", "E0,E5", maxlen=("7", "8")), gen_q("small", "E0"), gen_mm("hist", depth=("3", "4")), gen_pair("Weighted", "hist", "E0:W0,E5:W2", depth=("3", "4")), gen_pair("Covariance", "hist", "E0:E0,E3:E5", depth=("3", "4")), gen_hist(ALLM, "E0,E3,E5", depth=("5", "6"), slots=("{1}", "{1, 2}")), gen_hist(ALLM, "E0,E5")],
+        "replay": [gen_h("hist", 2, depth=("3", "4")), gen_h("hist", 1), gen_q("big", "E0,E5", maxlen=("7", "8")), gen_q("small", "E0"), gen_mm("hist", depth=("3", "4")), gen_pair("Weighted", "hist", "E0:W0,E5:W2", depth=("3", "4")), gen_pair("Covariance", "hist", "E0:E0,E3:E5", depth=("3", "4")), gen_hist(ALLM, "E0,E3,E5", depth=("5", "6"), slots=("{1}", "{1}")), gen_hist(ALLM, "E0,E5")],
         "trace": [TR_Q],
         "direct": [{"cmd": "direct", "family": "histserde", "args": {"reps": ("20", "200")}}],
         "rule": "every history with checkpoints at every position; two real executions (with / without the JSON round trip) "
                 "compared bit for bit on every accessor",
-        "bounds": {"quick": "depth <= 5 one slot, depth <= 4 two slots", "thorough": "depth <= 6 / 5"},
+        "bounds": {"quick": "depth <= 5 one slot, depth <= 4 two slots", "thorough": "depth <= 6 one slot, depth <= 5 two slots"},
         "assumptions": ["serde_json with float_roundtrip is lossless for finite f64"],
     },
     "C08": {
@@ -282,7 +285,7 @@ PROPS = {
         "mc": [MC_C, MC_C1],
         "replay": [GEN_INGEST, gen_pair("Covariance", "seq", CE, maxlen=("4", "5")),
                    gen_pair("Covariance", "tree", "E0:E0,E3:E5,E5:E3", maxlen=("3", "4")),
-                   gen_pair("Covariance", "hist", "E0:E0,E3:E5", depth=("3", "4"))],
+                   gen_pair("Covariance", "hist", "E0:E0,E3:E5", depth=("4", "4"))],
         "apalache": [{"module": "Ind_Covariance", "skip": (True, False)}],
         "rule": "every sequence of pairs over {-1,0,2}^2 up to the length bound (collinear, anti-collinear, partially correlated), "
                 "every chunking and merge tree, arbitrary histories; independent embeddings of x and y; a twin object fed the "
